@@ -36,6 +36,7 @@ def main() -> int:
         chk._ensure_alt()
         world = World(EventLog(), plan=arg["plan"], block=arg["block"],
                       root=arg["root"], real_crash=True)
+        world.pyc_steps = True      # (same steps as the simulation)
         world.activate()
         proc = world.new_proc("A")
         with world.as_proc(proc):
